@@ -195,6 +195,36 @@ def rule_V5(ctx) -> None:
             ctx.proved("V5", f"{name}:no-shared-mutable-state", mod.loc(fn))
 
 
+def rule_V6(ctx) -> None:
+    """state handed to a copy by reference must be immutable (the unknown-field buffer is extended in place by load)"""
+    mod = ctx.repo.mod(M_INIT)
+    pi = mod.func("Message.__post_init__")
+    init = None
+    for n in ast.walk(pi):
+        if isinstance(n, ast.Assign):
+            for t in n.targets:
+                if (isinstance(t, ast.Subscript) and isinstance(t.slice, ast.Constant) and t.slice.value == "_unknown_fields") or \
+                        (isinstance(t, ast.Attribute) and t.attr == "_unknown_fields"):
+                    init = n.value
+    if init is None:
+        raise AnalysisError("__post_init__: initial value of _unknown_fields not found")
+    immutable = isinstance(init, ast.Constant) and isinstance(init.value, bytes)
+    mutable = isinstance(init, ast.Call) and ast.unparse(init.func) in ("bytearray", "list", "io.BytesIO", "BytesIO")
+    for name in ("__copy__", "__deepcopy__"):
+        fn = mod.func(f"Message.{name}")
+        shared = [n for n in ast.walk(fn) if isinstance(n, ast.Assign) and any("_unknown_fields" in ast.unparse(t) for t in n.targets)
+                  and ast.unparse(n.value).endswith("._unknown_fields")]
+        cname = f"{name}:unknown-fields-not-shared-mutably"
+        if immutable or not shared:
+            ctx.proved("V6", cname, mod.loc(fn), "bytes are immutable" if immutable else "copied")
+        elif mutable:
+            ctx.refuted("V6", cname, "shared-mutable-buffer", mod.loc(shared[0]),
+                        f"_unknown_fields starts as {ast.unparse(init)} (mutable) and {name} hands the same object to the copy; load() extends it in place (`+=`), so parsing more data into the copy "
+                        "changes the bytes of the original", "d = deepcopy(m); d.parse(more_bytes_with_unknown_fields); bytes(m)")
+        else:
+            ctx.inconclusive("V6", cname, f"initial value {ast.unparse(init)} is neither a bytes literal nor a known mutable buffer", mod.loc(fn))
+
+
 def rule_V3(ctx) -> None:
     mod = ctx.repo.mod(M_INIT)
     fn = mod.func("Message.__deepcopy__")
@@ -237,7 +267,7 @@ def rule_V4(ctx) -> None:
 
 
 def run(ctx) -> None:
-    for name, fn in (("V1", rule_V1), ("V1b", rule_V1b), ("V2", rule_V2), ("V3", rule_V3), ("V4", rule_V4), ("V5", rule_V5), ("D3", presence.rule_D3)):
+    for name, fn in (("V1", rule_V1), ("V1b", rule_V1b), ("V2", rule_V2), ("V3", rule_V3), ("V4", rule_V4), ("V5", rule_V5), ("V6", rule_V6), ("D3", presence.rule_D3)):
         ctx.rules_run.append(name)
         fn(ctx)
     ctx.assume("external callees are pure unless in the mutator list; aliases arise only by name binding")
